@@ -29,7 +29,8 @@ def budget(tier):
 def _case(draw):
     prof = S.profile(max_methods=5, max_services=3, p_http=0.5, p_sig=0.3, p_routing=0.05, p_paged=0.1, p_lro=0.1, p_stream=0.15,
                      p_dep_io=0.1, p_comment=0.02, max_messages=3, max_fields=6, max_files=2, p_keyword_rpc=0.12, p_reserved_field=0.12,
-                     required_fields=True, p_required=0.3, p_sparse_numbers=0.5, dup_rpc_names=True, p_twin_rpc=0.3)
+                     required_fields=True, p_required=0.3, p_sparse_numbers=0.5, dup_rpc_names=True, p_twin_rpc=0.3,
+                     services_in_subpackages=True, p_subpackage=0.35)
     api = draw(S.apis(prof))
     t = draw(st.sampled_from(["grpc", "rest", "grpc+rest"]))
     opts = {"params": ["autogen-snippets=False", "metadata", f"transport={t}"], "snippets": False, "transport": t, "metadata": True}
